@@ -1,7 +1,7 @@
 ----------------------------- MODULE MC_Commands -----------------------------
 (* Scenario: all 256 command bytes x payload classes; the byte <-> operation  *)
 (* tables.  C11 (and the command row of C05).  Complete on both sides.        *)
-EXTENDS Ctap, Gen
+EXTENDS Ctap, Gen, Lattice
 
 ValidPayload(c) == Enc(ToTree(T_Indexed(CommandTable[c].schema), ReqMin(c), F, TRUE))
 
@@ -31,8 +31,12 @@ CmPayloads ==
                \cup {[ReqFull(10, F) EXCEPT !.subCommand = n] : n \in CmSubcommands}}
     \cup {Enc(CMap(<< <<CU(1), CU(n)>> >>)) : n \in {0, 8, 9, 23, 24, 255}}
     \cup {Enc(CMap(<< <<CU(2), CMap(<< >>)>> >>)), Enc(CMap(<< <<CU(1), CU(7)>>, <<CU(2), CMap(<< <<CU(3), CMap(<< >>)>> >>)>> >>))}
+\* ... and every member over the lattice of its type, every pair at the extremes (protocol 2, every
+\* sub-command with every parameter shape, ...)
+CmLatticePayloads ==
+    {Enc(ToTree(T_Indexed("CmReq"), sv, F, TRUE)) : sv \in OneAtATime("CmReq", F, TRUE) \cup TwoAtATime("CmReq", F, TRUE)}
 PrototypeCases ==
-    {[op |-> "decode2", tag |-> "prototype-code", c |-> c, sv |-> << >>, wire |-> <<c>> \o p] : c \in {10, 65}, p \in CmPayloads}
+    {[op |-> "decode2", tag |-> "prototype-code", c |-> c, sv |-> << >>, wire |-> <<c>> \o p] : c \in {10, 65}, p \in CmPayloads \cup CmLatticePayloads}
 
 TableCases == {[op |-> "optable", tag |-> "optable", c |-> c] : c \in 0..255}
 
